@@ -49,15 +49,33 @@ def run(ctx, rep):
         for bi in FS.reachable():
             t = FS.blocks[bi]['term']
             if t['k'] == 'switch':
+                # the tested value is mirroring_enabled() itself (possibly negated / copied), or bit 7 of the extended
+                # flags tested inline - not something merely derived from it such as active_fat()
                 src = switch_source(FS, bi)
-                d0 = Deps(FS)
-                toks = d0.of_operand(t['discr'])
-                if any(tk[0] == 'call' and tk[1].endswith('::mirroring_enabled') for tk in toks):
+                hit = False
+                if src and src['kind'] == 'call' and (src.get('callee') or '').endswith('::mirroring_enabled'):
+                    hit = True
+                elif src and src['kind'] == 'unop':
+                    pu = op_place(src['a'])
+                    for b2, t2 in FS.calls():
+                        if pu is not None and t2['dest']['l'] == pu['l'] and (t2.get('callee') or '').endswith('::mirroring_enabled'):
+                            hit = True
+                elif src and src['kind'] == 'binop' and src['op'] in ('Eq', 'Ne'):
+                    d0 = Deps(FS, _summary_depth=3)
+                    tk0 = d0.of_operand(src['a']) | d0.of_operand(src['b'])
+                    hit = ('field', 'extended_flags') in tk0 and ('const', 0x80) in tk0 and ('op', 'BitAnd') in tk0
+                if hit:
                     sw = bi
                     break
         ctor = [(b, t) for b, t in FS.calls() if (t.get('callee') or '').endswith('DiskSlice::from_sectors')]
-        if sw is None or len(ctor) != 1:
-            rep.machinery('ANCHOR fat_slice: mirroring switch / DiskSlice::from_sectors call')
+        if len(ctor) != 1:
+            rep.machinery('ANCHOR fat_slice: DiskSlice::from_sectors call')
+        elif sw is None:
+            rep.oblige('R10.2', FAT_SLICE, ok=False, nontrivial=True)
+            rep.violation('R10.2', vkey('R10.2', FAT_SLICE, 'mirroring-switch', ''), FS.loc(FS.span),
+                          'FAT slice geometry: the number of copies written and the first sector are not selected by '
+                          'mirroring_enabled() (bit 7 of the extended flags): with mirroring disabled and active FAT 0 '
+                          'the inactive copies would be written too')
         else:
             t = FS.blocks[sw]['term']
             cb, ct = ctor[0]
